@@ -171,6 +171,7 @@ var serialCtr int64 = 1000
 type certSpec struct {
 	cn        string
 	dns       []string
+	ips       []net.IP
 	notBefore time.Time
 	notAfter  time.Time
 	isCA      bool
@@ -184,6 +185,7 @@ func makeCert(spec certSpec, key crypto.Signer, parent *x509.Certificate, parent
 		NotBefore:             spec.notBefore,
 		NotAfter:              spec.notAfter,
 		DNSNames:              spec.dns,
+		IPAddresses:           spec.ips,
 		BasicConstraintsValid: true,
 		IsCA:                  spec.isCA,
 		KeyUsage:              x509.KeyUsageDigitalSignature,
@@ -200,6 +202,13 @@ func makeCert(spec certSpec, key crypto.Signer, parent *x509.Certificate, parent
 	return must(x509.ParseCertificate(der)), der
 }
 
+// intermediate CA under the trusted root (kept for the call-site part, which issues its own leaf)
+var (
+	caInter    *x509.Certificate
+	caInterKey crypto.Signer
+	caInterDER []byte
+)
+
 func buildChains(dir string) []*chain {
 	now := time.Now()
 	ok0, ok1 := now.Add(-24*time.Hour), now.Add(24*365*time.Hour)
@@ -210,6 +219,7 @@ func buildChains(dir string) []*chain {
 	root, rootDER := makeCert(certSpec{cn: "verif trusted root", notBefore: ok0, notAfter: ok1, isCA: true}, rootKey, nil, nil)
 	interKey := genKey(kECDSA)
 	inter, interDER := makeCert(certSpec{cn: "verif intermediate", notBefore: ok0, notAfter: ok1, isCA: true}, interKey, root, rootKey)
+	caInter, caInterKey, caInterDER = inter, interKey, interDER
 	// untrusted CA
 	uKey := genKey(kECDSA)
 	uCA, uCADER := makeCert(certSpec{cn: "verif untrusted CA", notBefore: ok0, notAfter: ok1, isCA: true}, uKey, nil, nil)
@@ -766,6 +776,9 @@ func main() {
 		}
 	}
 
+	// call sites: the real components against TLS servers of the harness
+	callSitePart(r, dir)
+
 	r.Set("chains", len(chains))
 	r.Set("fingerprint_strings", fpTotal)
 	r.Set("handshake_cases_accepted", accepted)
@@ -785,7 +798,10 @@ func main() {
 		"crypto/tls, crypto/x509 and net/http of the Go toolchain are trusted (they run for real on both ends)",
 		"the 'leaf' is the first certificate the server presents (TLS definition)",
 		"keys are freshly generated per run (crypto/rand); the verdict does not depend on them",
-		"callers are represented by four usages of the returned *tls.Config (as is, Clone+ServerName+ALPN, net/http Transport, session cache); QUIC/DTLS users are not driven",
+		"fingerprint-string alphabet: callers are represented by four usages of the returned *tls.Config (as is, Clone+ServerName+ALPN, net/http Transport, session cache)",
+		"call-site part: components are built from conf.Load output the way internal/core/path.go and core.go build them (staticsources.Handler, forward.Manager, auth.Manager), not through a running Core; " +
+			"three certificates and three fingerprint forms per call site (the string alphabet is covered on MakeConfig); a rejected QUIC handshake is not visible to a QUIC listener, there the explicit event is the component's own TLS error; " +
+			"hot reload of a fingerprint is property C13's subject",
 		fmt.Sprintf("concurrent use of one returned config (crypto/tls calls VerifyConnection concurrently) is covered by a separate free-running -race pass of %d shared-config handshake groups, not by schedule enumeration: the closure has no synchronisation operations a scheduler could interleave at", raceRuns),
 		"trusted root pool = one generated root installed through SSL_CERT_FILE/SSL_CERT_DIR of the harness process",
 	}
